@@ -225,7 +225,7 @@ PROPS["C01"] = {
     "level": "model_checking",
     "claim": "Bounded symbolic model checking of order independence on the REAL evaluator (Vertex.Finalize: scheduler, conjunct insertion, insertArc, reference resolution, cycle handling). Scalar fragment: for every pair of conjuncts (atoms, basic types, bounds) and an arbitrary probe atom, unifying them in declaration order, reversed, interleaved with the probe, with a duplicated conjunct and with an extra top gives the same success/failure and the same value; triples of number types and bounds have the same error status in every explored order and fail only if unsatisfiable. Struct fragment: two struct literals (built as ADT) with fields a, b holding symbolic integer atoms, bounds on symbolic integers, int, or references to a sibling field (cycles included), evaluated as S1 & S2, as S2' & S1' with each literal's declarations reversed, and as one literal holding all declarations: the same fields exist, with the same error code, and admit the same integers for an arbitrary probe. Plus the order-free kernels (arc-type meet, default-mode combination, symmetry of bound simplification) are commutative, associative and idempotent.",
     "note": "Trusted: go/ssa, the executor, z3, the decimal contract model. Outside: nested structs, optional/required fields, definitions and closedness, embeddings, comprehensions, lists, disjunction order, file order, structure sharing beyond what two flat literals trigger, the compiler (literals are built as ADT).",
-    "technique": "bounded symbolic execution of adt.Vertex.Finalize (the real scheduler and conjunct insertion) on permuted/duplicated symbolic scalar conjuncts; outcomes compared by z3",
+    "technique": "bounded symbolic execution of adt.Vertex.Finalize (the real scheduler, conjunct insertion, insertArc, reference resolution) on permuted/duplicated symbolic scalar conjuncts and on permuted struct literals with symbolic integer leaves; outcomes compared by z3",
     "bounds": {
         "quick": "conjunct pairs over strings/bytes (<= 1 byte) with types and bounds, probe <= 2 bytes: orders (c1,c2,p), (p,c2,c1), (c1,p,c2,c1,top); triples int & c2 & c3 with c2,c3 a number type or a bound (< <= > >= !=) on a one-digit int or one-digit half-unit float (d*10^-1), in 3 orders (identity, reversed, rotated); two struct literals over fields a, b with <= 2 and 1 declarations, values: integer in 0..3, bound (< or >=) on such an integer, int, sibling reference; probe in 0..3; arc types: all values; default modes: all values",
         "thorough": "conjunct pairs over the full scalar domain (null, bool, numbers, strings, bytes; all basic types; all bounds); triples with all three conjuncts arbitrary (type or bound) in 3 orders; struct literals with <= 2 declarations each",
@@ -454,14 +454,14 @@ PROPS["C04"] = {
 
 PROPS["C05"] = {
     "level": "model_checking",
-    "claim": "Bounded symbolic model checking of the periphery of field-constraint handling: adt.matchPattern/matchPatternValue on every pattern tree of depth <= 2 over top, basic types, string and number bounds, exact strings and ints, & and |, and a symbolic regular label (string or int) agrees with 'the label read as an atom satisfies the pattern' under the C03 oracle; hidden, definition and let labels never match; allowedInClosed is exactly hidden/definition/let on all 2^32 features; MakeLabel/Index/Typ round-trip and reject out-of-range indices. The evidence-based typo check (which fields a closed struct admits) is outside this claim.",
-    "note": "Trusted: go/ssa, the executor, z3, the decimal contract model. Outside (most of the statement): checkTypos / closeContext evidence, insertArc, embeddings, close(), definitions closing recursively, required-field validation over struct trees, regexp patterns.",
-    "technique": "bounded symbolic execution of adt.matchPattern / matchPatternValue / BoundValue.validateStr / validateInt / Feature helpers from go/ssa with symbolic label strings and indices; agreement with the oracle decided by z3",
+    "claim": "Bounded symbolic model checking of (1) the REAL evaluator's closedness bookkeeping (closeContext/reqSets, checkTypos, insertArc, pattern constraints, ellipsis, embeddings) on programs `#S1: s1, #S2: s2, x: L & R & data` built as the ADT the compiler emits, with L one of #S1 / the open literal s1 / the embedding {#S1, c: 1}, R one of #S2 / the open literal s2, schemas from { a: <k | a?: <k | a!: <k, b?: int, [string]: int, ... } and data a subset of {a: n, b: 1, c: 1} with k, n symbolic integers: Vertex.Err on x is non-nil exactly when some field present in the result (from the data, a regular or required schema field, or next to the embedding) is not admitted by some closed conjunct (named field, pattern, ellipsis; the embedding widens its enclosing literal) or n violates a declared bound, and on success the data field keeps its value; open literals never reject a field and optional constraints on absent fields never fail; (2) the periphery: adt.matchPattern/matchPatternValue on every pattern tree of depth <= 2 over top, basic types, string and number bounds, exact strings and ints, & and |, and a symbolic regular label (string or int) agrees with 'the label read as an atom satisfies the pattern' under the C03 oracle; hidden, definition and let labels never match; allowedInClosed is exactly hidden/definition/let on all 2^32 features; MakeLabel/Index/Typ round-trip and reject out-of-range indices.",
+    "note": "Trusted: go/ssa, the executor, z3, the decimal contract model. Outside: close() (builtin machinery), definitions closing recursively below the first level, 'every required field is present' (reported by Validate, not by unification), hidden/definition fields inside the data, regexp patterns, schemas reached through the compiler rather than built as ADT.",
+    "technique": "bounded symbolic execution of adt.Vertex.Finalize (closedness: typocheck.go, closed.go, fields.go, constraints.go) on ADT programs with enumerated shape and symbolic integer bounds/values, outcome compared with a membership oracle by z3; bounded symbolic execution of adt.matchPattern / matchPatternValue / BoundValue.validateStr / validateInt / Feature helpers from go/ssa with symbolic label strings and indices; agreement with the oracle decided by z3",
     "bounds": {
-        "quick": "pattern trees of depth <= 2 with string operands <= 1 byte and int operands < 10; labels: strings <= 2 bytes or int indices < 10; all 32-bit features",
-        "thorough": "string operands <= 2 bytes, labels <= 3 bytes",
+        "quick": "closedness: schemas over a (absent/regular/optional/required with bound <k), pattern, ellipsis; second schema always a definition; data subsets of {a: n, c: 1}; k, n arbitrary in 0..3; pattern trees of depth <= 2 with string operands <= 1 byte and int operands < 10; labels: strings <= 2 bytes or int indices < 10; all 32-bit features",
+        "thorough": "closedness: both schemas open or definition, with b?: int and data b as well; string operands <= 2 bytes, labels <= 3 bytes",
     },
-    "outside": ["closedness evidence (typocheck.go, closed.go)", "insertArc / embeddings / close()", "required fields", "regexp patterns"],
+    "outside": ["close()", "nested (recursive) closedness", "required-field presence (Validate)", "regexp patterns", "compiler front end"],
     "assumptions": APD_ASSUMPTIONS,
     "runs": [
         {
@@ -472,6 +472,15 @@ PROPS["C05"] = {
             "entries": {
                 "quick": [{"name": "verifHarnessMatchPattern", "params": {"STRLEN": 1}}, "verifHarnessFeatureClasses"],
                 "thorough": [{"name": "verifHarnessMatchPattern", "params": {"STRLEN": 2}}, "verifHarnessFeatureClasses"],
+            },
+        },
+        {
+            "pkg": "./internal/core/adt",
+            "harness": ["adt/common.go", "adt/disjunct.go", "adt/closed.go"],
+            "apdmodel": True,
+            "entries": {
+                "quick": [{"name": "verifHarnessClosedStruct", "params": {"B": 0, "S2DEF": 1}}],
+                "thorough": [{"name": "verifHarnessClosedStruct", "params": {"B": 1, "S2DEF": 0}}],
             },
         },
     ],
